@@ -1067,15 +1067,15 @@ def limit_cases(kind, rng, big):
             cases.append((OPS[kind], c + [[101, 1, 0], [121], [11], [121], [13], [13], [11], [101, 1, 0], [121]] + shrink))
         elif kind == "md":
             big_tlv = [2] + [7] * 255
-            n = 254
+            n = 253          # 253 options: one more fits, two more do not
             c = [ids, flags, desc, [0, 0, 0], [1] + [0x61] * 100, [1] + [0x62] * 100, [1] + enchunk([big_tlv] * n)]
-            cases.append((OPS[kind], c + [[121], [12] + big_tlv, [11], [121], [12] + big_tlv, [11], [121],
-                                          [5] + [0x63] * 255, [121], [13], [11], [121]] + ([[120]] if big else shrink)))
+            cases.append((OPS[kind], c + [[121], [12] + big_tlv, [11], [121], [12] + big_tlv, [11], [121], [13], [11], [121],
+                                          [5] + [0x63] * 255, [121], [5] + [0x63] * 140, [121]] + ([[120]] if big else shrink)))
         else:
             big_resp = [0, 0, 240, 0] + [0x61] * 240 + [9] * 12
-            n = 254
+            n = 253          # 253 responses of 257 octets: one more fits, two more do not
             c = [ids, flags, desc, [4, 0, 1], [0], [1] + enchunk([big_resp] * n)]
-            cases.append((OPS[kind], c + [[121], [12] + big_resp, [11], [121], [12] + big_resp, [11], [121], [12] + big_resp,
-                                          [11], [121], [1] + [5] * 200, [121], [4, 0], [1] + [5] * 200, [4, 4], [121], [13], [11], [121]]
+            cases.append((OPS[kind], c + [[121], [12] + big_resp, [11], [121], [12] + big_resp, [11], [121], [13], [11], [121],
+                                          [1] + [5] * 255, [121], [4, 0], [1] + [5] * 255, [4, 4], [121], [0], [4, 4], [121]]
                           + ([[120]] if big else shrink)))
     return cases
